@@ -9,7 +9,8 @@ EXPLANATION = ("TermFlow on the allocator_api2 Allocator impl and the private Al
                "returned; realloc builds (new_size, align(old)) and dispatches on new_size <= size(old); (O2) returned pointers are aligned to the new layout and MIN_ALIGN, finger "
                "stores keep the chunk invariant, the in-place grow requests round_up(size(new),MIN_ALIGN)-size(old) bytes with align(old) under align(new) <= align(old) and "
                "is_last_allocation; (R3) copy discipline — counts are size(old) for grow and size(new) for shrink, every copy_nonoverlapping has a disjointness proof (fresh block "
-               "from this call, or the halving lemma delta >= (old+1)/2 => new <= delta), otherwise the call must be ptr::copy; (R4) no store or copy precedes an Err return.")
+               "from this call, or the halving lemma delta >= (old+1)/2 => new <= delta), otherwise the call must be ptr::copy; (R4) no store or copy precedes an Err return."
+               ' (R4 also) a finger store that releases memory inside an inlined callee (dealloc before the fallback allocation) must not be followed by an Err return.')
 RULE = "rule instance = (rule, entry, site); distinct by (rule, entry, site)"
 
 
